@@ -30,7 +30,7 @@ INVARIANT = ["squared_average", "quadratic_mean", "root_mean_square", "effective
 def strategy(draw):
     dt = draw(gen.choice(gen.DTS))
     n = draw(st.integers(16, 300))
-    exp = draw(st.integers(-6, 6))
+    exp = draw(st.one_of(st.integers(-6, 6), st.just(-10)))
     rec = draw(gen.recording_recipe(n=n, dt=dt, scale_exp=(exp, exp), kinds=("noise", "sines", "chirp", "spikes", "raw")))
     rec["degrees_from_north"] = draw(ANGLES)
     spec = draw(gen.processing_spec(n_max=300, methods=["single_azimuth"], policy="frequency_domain_resampling",
